@@ -87,6 +87,13 @@ func (t *Tracer) trace(c context.Context, pgid int) (result runner.Result) {
 		}
 		t.Handler.Debug("------ ", pid, " ------")
 
+		// the cancellation may have fired before the child created its process group
+		// (kill(-pgid) answered ESRCH and was lost): deliver it again now that a tracee
+		// of the group is known to exist
+		if c.Err() != nil {
+			killAll(pgid)
+		}
+
 		// update rusage
 		if pid == pgid {
 			userTime, userMem, curStatus := t.checkUsage(rusage)
